@@ -177,6 +177,33 @@ def run_region_operator(spec):
     return o
 
 
+def run_core_region_operator(spec):
+    """Every assembly of a core (identical twins included) is probed at the step the core really takes."""
+    o = Outcome()
+    with drive.Case(spec) as c:
+        r = c.setup()
+        o.classes["gap"] = spec["core"]["gap_model"]
+        o.classes["n_asm"] = len(r.assemblies)
+        o.classes["twins"] = sum(1 for p_ in spec["_meta"]["pos"] if "twin_of" in p_)
+        o.classes["conv_approx_regions"] = sum(1 for a in r.assemblies for g in a.region if getattr(g, "_conv_approx", False))
+        lim = min(r.min_dz["dz"])
+        o.check(float(np.max(r.dz)) <= lim * (1 + 1e-9), "step_exceeds_limit", "%r > %r" % (float(np.max(r.dz)), lim))
+        o.classes["limit_sc"] = str(r.min_dz["sc"][int(np.argmin(r.min_dz["dz"]))])
+        r.axial_step0()
+        dz = float(np.max(r.dz))
+        min_self = 1.0
+        for i, asm in enumerate(r.assemblies):
+            reg = asm.active_region
+            tg, hg = gap_inputs(r, i)
+            p = Probe(reg, dz, tg, hg, r._is_adiabatic)
+            M, base, allone = p.matrix()
+            kind = "rodded" if reg.is_rodded else getattr(reg, "model", "lowfi")
+            min_self = min(min_self, check_operator(o, M, allone, kind, p.n_int + p.n_byp))
+        o.metric("min_self_weight_margin", 1.0 - min_self)
+        o.nontrivial = len(r.assemblies) >= 2 and min_self < 0.9
+    return o
+
+
 def run_gap_operator(spec):
     o = Outcome()
     with drive.Case(spec) as c:
@@ -392,6 +419,12 @@ def parts(tier):
                                                             regimes=("low", "lam", "tra", "tur"))),
              examples=96 if q else 3000),
         Part("lowfi_operator", run_region_operator, strategy=with_step_request(lowfi_limited()), examples=64 if q else 1500),
+        Part("core_region_operator", run_core_region_operator,
+             strategy=gen.core_spec(core_rings=(2, 2), n_types=(1, 2), rings=(2, 3), ducts=(1, 2),
+                                    gap_models=("none", "no_flow", "duct_average", "flow"), n_steps=(3, 6),
+                                    regimes=("low", "low", "lam", "tra"), dT=(1.0, 20.0), byp_frac=(0.05, 0.3), conv_approx=True,
+                                    twins=True, lowfi=True),
+             examples=96 if q else 1500, timeout=120),
         Part("gap_operator", run_gap_operator,
              strategy=gen.core_spec(core_rings=(1, 2) if q else (1, 3), rings=(2, 4), ducts=(1, 2),
                                     gap_models=("flow", "flow", "no_flow", "duct_average"), n_steps=(3, 6),
